@@ -1,16 +1,28 @@
 """C16 — Flags: bit meanings, selection by name and derivation (correspondence + search)."""
+import logging
 import shutil
 
 import numpy as np
 
 from fixtures import h5, v4
 
-RULE = ('selection arguments (all/empty/comma strings with blanks/lists/unknown names; every subset of the 8 '
-        'documented names in the thorough tier) applied with select(flags=...) to synthetic v4, v3 and v2 data sets '
-        'whose stored flag bytes run through all 256 values; a case is one (format, argument) pair, non-trivial when '
-        'the argument names at least one flag, distinct by (format, canonical argument)')
+RULE = ('stream args: selection arguments (all/empty/comma strings with blanks/lists/unknown names; every subset of '
+        'the 8 documented names in the thorough tier) applied with select(flags=...) to synthetic v4, v3 and v2 data '
+        'sets whose stored flag bytes run through all 256 values; a case is one (format, argument) pair, non-trivial '
+        'when the argument names at least one flag, distinct by (format, canonical argument).  stream v4cal: random '
+        'v4 data sets (2-3 antennas, random chunking) with random stored flag bytes (all 8 bits), lost chunks of '
+        'correlator_data / flags / weights / weights_channel, opened without calibration or with applycal = G and/or '
+        'B products whose solutions are powers of two with NaN inputs / NaN band edges / a second B event; then a '
+        'random history of 5-8 select() calls (flags= present or absent, selections with and without postproc and '
+        'data_lost, weights=, dumps/channels/pol/ants/corrprods/reset); after EVERY call d.raw_flags, d.flags, d.vis '
+        'and d.weights are compared with the extracted model; a case is one (data set, history prefix), non-trivial '
+        'when the data set has a lost chunk or an invalid correction inside the current selection, distinct by '
+        '(configuration, step)')
 ASSUMPTIONS = ['v2/v3 files without a flags_description table (the default description is flags.NAMES)',
-               'postproc derivation is exercised by C13; here raw flags = stored | data_lost']
+               'v4cal stream: which samples carry an invalid correction is computed from the generated cal solutions '
+               '(G constant in time, B piecewise constant in time with NaN only at band edges or for whole inputs); '
+               'the general derivation of corrections from solutions is C13/C14',
+               'v4cal stream: correction factors are powers of two, so vis and weights are compared exactly']
 
 DOC = ['reserved0', 'static', 'cam', 'data_lost', 'ingest_rfi', 'predicted_rfi', 'cal_rfi', 'postproc']
 
@@ -74,17 +86,55 @@ def canon_arg(arg):
     return arg if isinstance(arg, str) else list(arg)
 
 
+class _Warnings(logging.Handler):
+    """Collects the WARNING records of the katdal loggers while a select() call runs (fixtures.v4 silences logging
+    globally; it is re-enabled only inside the `with`)."""
+    def __init__(self):
+        super().__init__(logging.WARNING)
+        self.records = []
+
+    def emit(self, record):
+        self.records.append(record)
+
+    def __enter__(self):
+        self._disabled = logging.root.manager.disable
+        logging.disable(logging.NOTSET)
+        self._lg = logging.getLogger('katdal')
+        self._level, self._prop = self._lg.level, self._lg.propagate
+        self._lg.setLevel(logging.WARNING)
+        self._lg.propagate = False
+        self._handlers = list(self._lg.handlers)     # katdal installs its own stream handler: keep it quiet
+        self._lg.handlers = [self]
+        return self
+
+    def __exit__(self, *exc):
+        self._lg.handlers = self._handlers
+        self._lg.setLevel(self._level)
+        self._lg.propagate = self._prop
+        logging.disable(self._disabled)
+
+    def unknown_flag_warnings(self):
+        return sum(1 for r in self.records if 'is not a legitimate flag type' in str(r.msg))
+
+
 def check_selection(ctx, fmt, d, stored, lost, arg, mouts):
-    """mouts = model output for wire (1 arg): [model_v34, spec_v34, model_v2, spec_v2]."""
+    """mouts = model output for wire (1 arg): [model_v34, spec_v34, model_v2, spec_v2, number_of_warnings]."""
     model_mask, spec_mask = (mouts[2], mouts[3]) if fmt == 'v2' else (mouts[0], mouts[1])
     try:
-        d.select(flags=arg)
+        with _Warnings() as w:
+            d.select(flags=arg)
+        if len(mouts) > 4 and w.unknown_flag_warnings() != mouts[4]:
+            ctx.disagree('fmt=%s;what=unknown_name_warning;%s' % (fmt, 'missing' if w.unknown_flag_warnings() < mouts[4] else 'spurious'),
+                         dict(fmt=fmt, arg=canon_arg(arg)), w.unknown_flag_warnings(), mouts[4],
+                         'number of "not a legitimate flag type" warnings differs from the number of requested names '
+                         'that are not documented flag names')
         flags = np.asarray(d.flags[:])
         flags = flags.view(np.uint8) != 0 if flags.dtype == bool else flags != 0
         raw = np.asarray(d.raw_flags[:]) if fmt == 'v4' else stored
     except Exception as e:   # the property says selection by name always works (unknown names only warn)
         ctx.disagree('fmt=%s;what=select_flags_raises;exc=%s' % (fmt, type(e).__name__),
                      dict(fmt=fmt, arg=canon_arg(arg)), repr(e), spec_mask, 'select(flags=...) raised')
+        _recover(d)
         return
     exp_raw = stored | (lost.astype(np.uint8) << 3)
     if not np.array_equal(raw, exp_raw):
@@ -136,7 +186,8 @@ def run(ctx):
                 check_selection(ctx, fmt, d, stored, lost, a, mo)
                 names = a if isinstance(a, str) else ','.join(a)
                 ctx.note_case((fmt, canon_arg(a)), nontrivial=any(n in names for n in DOC) or a == 'all',
-                              sample=dict(fmt=fmt, flags=canon_arg(a), mask=mo[1] if fmt != 'v2' else mo[3]))
+                              sample=dict(fmt=fmt, flags=canon_arg(a), mask=mo[1] if fmt != 'v2' else mo[3])
+                              if i == 3 else None)
                 ctx.count('fmt=' + fmt)
                 ctx.count('argkind=' + ('str' if isinstance(a, str) else 'list'))
             # interleavings with other select() calls: flag/weight selection must not move anything else
@@ -145,6 +196,23 @@ def run(ctx):
         shutil.rmtree(tmp, ignore_errors=True)
     ctx.exhaustive = False
     ctx.extra['masks_swept_bytewise'] = len(masks[:40])
+    # v4 data sets with calibration applied and lost chunks under random selection histories
+    for f in ctx.findings:
+        w = f.get('witness') or {}
+        if w.get('stream') == 'v4cal':
+            run_v4cal(ctx, w['cfg'])
+    import glob
+    import json
+    import os
+    corpus = os.path.join(os.path.dirname(os.path.dirname(os.path.dirname(os.path.abspath(__file__)))), 'corpus', 'C16')
+    for fn in sorted(glob.glob(os.path.join(corpus, '*.replay.json'))):     # regression inputs (once-failing cases)
+        case = json.load(open(fn)).get('case', {})
+        if case.get('stream') == 'v4cal':
+            run_v4cal(ctx, case['cfg'])
+            ctx.count('v4cal:corpus')
+    n = ctx.scale(14, 150)
+    for i in range(n):
+        run_v4cal(ctx, gen_v4cal(ctx.rng, ctx.tier, force=FORCED[i] if i < len(FORCED) else None))
 
 
 def spec_py(a):
@@ -155,13 +223,15 @@ def spec_py(a):
         names = list(a)
     m34 = sum(1 << i for i in range(8) if DOC[i] in names)
     m2 = sum(1 << (7 - i) for i in range(8) if DOC[i] in names)
-    return [m34, m34, m2, m2]
+    return [m34, m34, m2, m2, sum(1 for n in names if n not in DOC)]
 
 
 def interleave(ctx, fmt, d, stored, lost, base_vis):
     rng = ctx.rng
     n = ctx.scale(12, 120)
+    d.select(flags='all')
     d.select()
+    cur = 'all'     # the flag selection in force: the last flags= argument (it survives every other select() call)
     for step in range(n):
         kind = rng.choice(['dumps', 'channels', 'ants', 'reset', 'pol'])
         try:
@@ -184,10 +254,21 @@ def interleave(ctx, fmt, d, stored, lost, base_vis):
         r0 = np.asarray(d.raw_flags[:]).copy() if fmt == 'v4' else None
         arg = rng.choice(['cam', 'all', '', 'static,cal_rfi', ['data_lost'], 'bogus'])
         wsel = rng.choice([None, 'all', ''])
-        if wsel is None:
-            d.select(flags=arg)
-        else:
-            d.select(flags=arg, weights=wsel) if fmt == 'v3' else d.select(flags=arg)
+        keep = rng.random() < 0.3      # no flags= in this step: the previous flag selection must still be in force
+        if keep:
+            arg = cur
+        try:
+            if keep:
+                d.select(weights=wsel) if (fmt == 'v3' and wsel is not None) else None
+            elif wsel is None:
+                d.select(flags=arg)
+            else:
+                d.select(flags=arg, weights=wsel) if fmt == 'v3' else d.select(flags=arg)
+        except Exception as e:
+            ctx.disagree('fmt=%s;what=select_flags_raises;exc=%s' % (fmt, type(e).__name__),
+                         dict(fmt=fmt, arg=canon_arg(arg)), repr(e), None, 'select(flags=...) raised')
+            _recover(d)
+            continue
         after = (d.dumps.tolist(), d.channels.tolist(), d.corr_products.tolist(), d.shape)
         v1 = np.asarray(d.vis[:])
         ok = before == after and np.array_equal(v0, v1)
@@ -197,6 +278,7 @@ def interleave(ctx, fmt, d, stored, lost, base_vis):
             ctx.disagree('fmt=%s;what=flag_select_changes_selection' % fmt,
                          dict(fmt=fmt, prior=kind, flags=canon_arg(arg)), after[3], before[3],
                          'select(flags=...) changed vis / raw flags / time-freq-product selection')
+        cur = arg
         # boolean flags under the current selection
         m = spec_py(arg)
         mask = m[3] if fmt == 'v2' else m[1]
@@ -206,11 +288,22 @@ def interleave(ctx, fmt, d, stored, lost, base_vis):
         fl = fl.view(np.uint8) != 0 if fl.dtype == bool else fl != 0
         if not np.array_equal(fl, (sub & np.uint8(mask)) != 0):
             ctx.disagree('fmt=%s;what=flags_bool_after_history' % fmt,
-                         dict(fmt=fmt, prior=kind, flags=canon_arg(arg), dumps=d.dumps.tolist(), channels=d.channels.tolist()),
+                         dict(fmt=fmt, prior=kind, flags=canon_arg(arg), flags_kw_in_step=not keep,
+                              dumps=d.dumps.tolist(), channels=d.channels.tolist()),
                          fl.shape, sub.shape, 'boolean flags after a selection history differ from (raw & mask) != 0')
         ctx.note_case((fmt, 'hist', step, kind, canon_arg(arg), before[0], before[1]), sample=None)
         ctx.count('history_steps')
     d.select()
+
+
+def _recover(d):
+    """select() keeps a failing flags= keyword in d._selection and would raise again on every later call:
+    forget it so that the search can go on after the disagreement was recorded."""
+    try:
+        d._selection.pop('flags', None)
+        d.select()
+    except Exception:
+        pass
 
 
 def _cp_index(d):
@@ -219,6 +312,9 @@ def _cp_index(d):
 
 def replay(ctx, doc):
     case = doc.get('case', {})
+    if case.get('stream') == 'v4cal':
+        run_v4cal(ctx, case['cfg'])
+        return
     tmp, sets = build(ctx)
     try:
         fmt = case.get('fmt', 'v4')
@@ -229,3 +325,351 @@ def replay(ctx, doc):
         ctx.note_case((fmt, canon_arg(a)))
     finally:
         shutil.rmtree(tmp, ignore_errors=True)
+
+
+# ---------------------------------------------------------------------------------------------------------------
+# stream v4cal: v4 data sets WITH applycal and lost chunks under random selection histories
+# ---------------------------------------------------------------------------------------------------------------
+FLAG_POOL = ['all', '', [], 'cam', 'postproc', 'data_lost', 'cam,postproc', 'data_lost,ingest_rfi', 'static,cal_rfi',
+             list(DOC[:-1]), [n for n in DOC if n != 'data_lost'], [n for n in DOC if n not in ('data_lost', 'postproc')],
+             'postproc,data_lost', ' cam , postproc ', 'bogus', ['nope', 'postproc'], ['cam', 'cam'], 'reserved0',
+             'predicted_rfi', list(DOC)]
+# the first configurations of every run are forced so that every seed meets the important corners
+FORCED = [dict(calmode='G', nan=True, lose=True), dict(calmode='GB', nan=True, lose=True),
+          dict(calmode='none', lose=True), dict(calmode='B', nan=True, lose=False)]
+
+
+def _compositions(rng, n, maxparts=3):
+    k = rng.randint(1, min(maxparts, n))
+    cuts = sorted(rng.sample(range(1, n), k - 1))
+    return [b - a for a, b in zip([0] + cuts, cuts + [n])]
+
+
+def gen_v4cal(rng, tier='quick', force=None):
+    force = force or {}
+    n_ant = rng.choice([2, 2, 3])
+    ants = ['m%03d' % a for a in range(n_ant)]
+    T, F = rng.randint(3, 5), rng.randint(4, 8)
+    calmode = force.get('calmode') or rng.choice(['none', 'G', 'G', 'GB', 'GB', 'B'])
+    want_nan = force.get('nan', rng.random() < 0.85)
+    pols = rng.choice([['h', 'v'], ['v', 'h']])
+    antlist = list(ants)
+    rng.shuffle(antlist)
+    products = {}
+    if 'G' in calmode:
+        g = [[(None if rng.random() < 0.25 else rng.randint(-3, 3)) for _ in range(n_ant)] for _ in range(2)]
+        if want_nan and all(e is not None for row in g for e in row):
+            g[rng.randrange(2)][rng.randrange(n_ant)] = None
+        if not want_nan:
+            g = [[(0 if e is None else e) for e in row] for row in g]
+        if all(e is None for row in g for e in row):
+            g[0][0] = 1
+        products['G'] = [[-1, g]]
+    if 'B' in calmode:
+        events = []
+        for dump in [-1] + ([rng.randint(1, T - 1)] if rng.random() < 0.5 else []):
+            lo, hi = (rng.randint(0, 2), F - rng.randint(0, 2)) if want_nan else (0, F)
+            b = [[(None if (want_nan and rng.random() < 0.15) else rng.randint(-2, 2)) for _ in range(n_ant)]
+                 for _ in range(2)]
+            if all(e is None for row in b for e in row):
+                b[0][0] = 0
+            events.append([dump, dict(lo=lo, hi=hi, exps=b)])
+        products['B'] = events
+    applycal = ['l1.' + t for t in products]
+    rng.shuffle(applycal)
+    chunks = {}
+    for name in ('correlator_data', 'flags', 'weights', 'weights_channel'):
+        chunks[name] = [_compositions(rng, T), _compositions(rng, F)]
+    lose = []
+    if force.get('lose', rng.random() < 0.8):
+        for name in ('correlator_data', 'flags', 'weights', 'weights_channel'):
+            if rng.random() < (0.7 if name == 'correlator_data' else 0.3):
+                for _ in range(rng.randint(1, 2)):
+                    idx = [rng.randrange(len(chunks[name][0])), rng.randrange(len(chunks[name][1]))]
+                    if [name, idx] not in lose:
+                        lose.append([name, idx])
+        if not lose:
+            lose.append(['correlator_data', [0, 0]])
+    hist = []
+    for _ in range(rng.randint(5, 8)):
+        st = {}
+        if rng.random() < 0.75:
+            a = rng.choice(FLAG_POOL)
+            if rng.random() < 0.15:
+                names = rng.sample(DOC, rng.randint(1, 7))
+                a = names if rng.random() < 0.5 else ','.join(names)
+            st['flags'] = a
+        r = rng.random()
+        if r < 0.15:
+            a = rng.randrange(T)
+            st['dumps'] = [a, rng.randint(a + 1, T)]
+        elif r < 0.3:
+            a = rng.randrange(F)
+            st['channels'] = [a, rng.randint(a + 1, F)]
+        elif r < 0.4:
+            st['pol'] = rng.choice(['hh', 'vv', 'hv', 'vh', 'h', 'v'])
+        elif r < 0.5:
+            st['ants'] = rng.sample(ants, rng.randint(1, n_ant))
+        elif r < 0.55:
+            st['corrprods'] = rng.choice(['auto', 'cross'])
+        elif r < 0.65 and not st:
+            st['reset'] = 1      # a bare select(): resets time / frequency / product selection only
+        if rng.random() < 0.15:
+            st['weights'] = rng.choice(['all', '', 'precision'])
+        hist.append(st)
+    if not any('flags' in st for st in hist):
+        hist[0]['flags'] = 'cam'
+    if force:
+        # every seed meets: a selection without postproc and data_lost, a later call without flags=, postproc only,
+        # data_lost without postproc, and back to all
+        hist = [{'flags': 'cam'}, {'dumps': [0, T]}, {'flags': 'postproc'}, {'flags': 'data_lost,ingest_rfi'},
+                {'reset': 1}, {'flags': 'all'}] + hist
+    return dict(stream='v4cal', T=T, F=F, ants=ants, seed=rng.randrange(10 ** 6), calmode=calmode,
+                cal=dict(antlist=antlist, pol_ordering=pols, products=products), applycal=applycal,
+                chunks=chunks, lose=lose, hist=hist, shuffle_bls=rng.random() < 0.3,
+                index=[rng.choice([None, None, 2]), rng.choice([None, None, 2])])
+
+
+def _p2(e):
+    return None if e is None else [2.0 ** e, 0.0]
+
+
+def _cal_telstate(cfg):
+    """the 'cal' dict of fixtures.c13cal.cal_hook for this configuration."""
+    F, c = cfg['F'], cfg['cal']
+    n_ant = len(cfg['ants'])
+    prods = {}
+    for t, events in c['products'].items():
+        if t == 'G':
+            prods['G'] = [[d, [[_p2(e) for e in row] for row in g]] for d, g in events]
+        else:
+            prods['B'] = [[d, [[[(_p2(b['exps'][p][a]) if b['lo'] <= k < b['hi'] else None) for a in range(n_ant)]
+                               for p in range(2)] for k in range(F)]] for d, b in events]
+    return dict(antlist=c['antlist'], pol_ordering=c['pol_ordering'], center_freq=1284e6, bandwidth=F * 1048576.0,
+                n_chans=F, products=prods)
+
+
+def _chunk_mask(T, F, comp, idx):
+    m = np.zeros((T, F), bool)
+    t0, f0 = sum(comp[0][:idx[0]]), sum(comp[1][:idx[1]])
+    m[t0:t0 + comp[0][idx[0]], f0:f0 + comp[1][idx[1]]] = True
+    return m
+
+
+def v4cal_expected(cfg, stored, bls):
+    """Per-sample model inputs computed from the configuration and the arrays written to the chunk store only."""
+    T, F, B = cfg['T'], cfg['F'], len(bls)
+    lost = {k: np.zeros((T, F), bool) for k in ('correlator_data', 'flags', 'weights', 'weights_channel')}
+    for name, idx in cfg['lose']:
+        lost[name] |= _chunk_mask(T, F, cfg['chunks'][name], idx)
+    c = cfg['cal']
+    # exponent of the correction per (t, f, input): correction = 1 / solution = 2^-e ; None -> invalid
+    k_in, ok_in = {}, {}
+    for a in cfg['ants']:
+        for p in 'hv':
+            ai, pi = c['antlist'].index(a), c['pol_ordering'].index(p)
+            k = np.zeros((T, F), int)
+            ok = np.ones((T, F), bool)
+            for t, events in c['products'].items():
+                if 'l1.' + t not in cfg['applycal']:
+                    continue
+                if t == 'G':
+                    e = events[0][1][pi][ai]
+                    if e is None:
+                        ok[:] = False
+                    else:
+                        k -= e
+                else:
+                    for n, (d, b) in enumerate(events):
+                        t0 = max(d, 0)
+                        t1 = events[n + 1][0] if n + 1 < len(events) else T
+                        e = b['exps'][pi][ai]
+                        chan_ok = np.array([b['lo'] <= f < b['hi'] for f in range(F)]) & (e is not None)
+                        ok[t0:t1] &= chan_ok[np.newaxis, :]
+                        if e is not None:
+                            k[t0:t1] -= e
+            k_in[a + p], ok_in[a + p] = k, ok
+    calok = np.ones((T, F, B), bool)
+    kk = np.zeros((T, F, B), int)
+    for j, (i1, i2) in enumerate(bls):
+        calok[:, :, j] = ok_in[i1] & ok_in[i2]
+        kk[:, :, j] = k_in[i1] + k_in[i2]
+    kk[~calok] = 0
+    vis = stored['correlator_data']
+    wc = stored['weights_channel']
+    we = np.round(np.log2(wc)).astype(int)
+    assert np.array_equal(np.float32(2.0) ** we, wc)
+    full = lambda m: np.broadcast_to(m[:, :, np.newaxis], (T, F, B))   # noqa: E731
+    return dict(stored=stored['flags'].astype(int), lostf=full(lost['flags']), lostv=full(lost['correlator_data']),
+                lostw=full(lost['weights'] | lost['weights_channel']), calok=calok, k=kk,
+                re=vis.real.astype(int), im=vis.imag.astype(int), w=stored['weights'].astype(int),
+                we=np.broadcast_to(we[:, :, np.newaxis], (T, F, B)))
+
+
+def _samples_wire(e):
+    cols = [np.asarray(e[k]).astype(int).ravel() for k in ('stored', 'lostf', 'lostv', 'lostw', 'calok', 'k', 're', 'im', 'w', 'we')]
+    return np.stack(cols, axis=1).tolist()
+
+
+def _hist_wire(hist):
+    return [([wire_arg(st['flags'])] if 'flags' in st else []) for st in hist]
+
+
+def v4cal_py(e, hist):
+    """Fallback of the model in Python, used only while searching without a model binary."""
+    cur = 'all'
+    for st in hist:
+        cur = st.get('flags', cur)
+    mask = spec_py(cur)[1]
+    raw = np.where(e['lostf'], 0, e['stored']) | np.where(e['lostf'] | e['lostv'] | e['lostw'], 8, 0) \
+        | np.where(e['calok'], 0, 128)
+    flag = (raw & mask) != 0
+    lv, lw, ok = e['lostv'], e['lostw'], e['calok']
+    out = np.stack([raw, flag, np.where(lv, 0, e['re']), np.where(lv, 0, e['im']), np.where(lv | ~ok, 0, e['k']),
+                    np.where(lw | ~ok, 0, e['w']), np.where(lw | ~ok, 0, e['we'] - 2 * e['k']), raw, flag], axis=-1)
+    return [mask, mask, out.reshape(-1, 9).tolist()]
+
+
+def _select_kwargs(st):
+    kw = {}
+    for k, v in st.items():
+        if k in ('dumps', 'channels'):
+            kw[k] = slice(*v)
+        elif k == 'flags':
+            kw[k] = v if isinstance(v, str) else list(v)
+        elif k != 'reset':
+            kw[k] = v
+    return kw
+
+
+def _bit_names(diff):
+    """which bits differ, classified: data_lost / postproc (the derived ones) / stored (any other bit)."""
+    d = int(np.bitwise_or.reduce(np.asarray(diff, np.uint8).ravel())) if np.size(diff) else 0
+    names = [n for n, m in (('data_lost', 8), ('postproc', 128), ('stored', 0x77)) if d & m]
+    return '+'.join(names) or 'none'
+
+
+def run_v4cal(ctx, cfg):
+    from fixtures import c13cal
+    T, F, ants = cfg['T'], cfg['F'], cfg['ants']
+    bls = v4.bls_ordering_for(ants)
+    if cfg.get('shuffle_bls'):
+        import random
+        random.Random(cfg['seed']).shuffle(bls)
+    B = len(bls)
+    rs = np.random.RandomState(cfg['seed'])
+    fl = rs.randint(0, 256, size=(T, F, B)).astype(np.uint8)
+    fl[0, :, :B // 2] = 0                  # clean samples
+    fl[-1] &= np.uint8(0x77)               # samples that get data_lost / postproc only by derivation
+    chunks = {k: (tuple(c[0]), tuple(c[1])) + (((B,),) if k != 'weights_channel' else ()) for k, c in cfg['chunks'].items()}
+    hook = c13cal.cal_hook(_cal_telstate(cfg)) if cfg['applycal'] else None
+    x = None
+    key = ('v4cal', cfg['seed'], T, F, len(ants), cfg['calmode'])
+    try:
+        try:
+            x = v4.build_v4(T=T, F=F, ants=ants, seed=cfg['seed'], arrays={'flags': fl}, chunks=chunks,
+                            bandwidth=F * 1048576.0, center_freq=1284e6, bls_ordering=bls,
+                            lose=[('sdp_l0', n, tuple(i) + ((0,) if n != 'weights_channel' else ())) for n, i in cfg['lose']],
+                            telstate_hook=hook, archived_override=['sdp_l0', 'cal'] if hook else None,
+                            open_kwargs=dict(applycal=list(cfg['applycal'])), tmp=v4.scratch_dir('c16cal'))
+            d = x.d
+            if cfg['applycal'] and sorted(d.applycal_products) != sorted(cfg['applycal']):
+                ctx.disagree('stream=v4cal;what=products_dropped', dict(stream='v4cal', cfg=cfg),
+                             list(d.applycal_products), cfg['applycal'], 'applycal products differ from the requested ones')
+                return
+        except Exception as e:
+            ctx.disagree('stream=v4cal;what=open_raises;exc=%s' % type(e).__name__, dict(stream='v4cal', cfg=cfg),
+                         repr(e)[:300], 'a data set', 'opening a v4 data set (applycal=%s) raised' % cfg['applycal'])
+            return
+        e = v4cal_expected(cfg, x.stored, bls)
+        hist = cfg['hist']
+        samples = _samples_wire(e)
+        if ctx.model_ok:
+            mouts = ctx.model([[161, [1, _hist_wire(hist[:i + 1]), samples]] for i in range(len(hist))])
+        else:
+            mouts = [v4cal_py(e, hist[:i + 1]) for i in range(len(hist))]
+        s1, s2 = [slice(None) if s is None else slice(None, None, s) for s in cfg.get('index', [None, None])]
+        sel_names = 'all'
+        for i, st in enumerate(hist):
+            case = dict(stream='v4cal', cfg=dict(cfg, hist=hist[:i + 1]), step=i)
+            mo = mouts[i]
+            if mo == [-999] or len(mo) != 3:
+                ctx.disagree('stream=v4cal;what=model_error', case, None, mo, 'model returned an error', kind='tie')
+                return
+            if mo[0] != mo[1]:
+                ctx.disagree('stream=v4cal;what=model_vs_spec_mask', case, mo[0], mo[1],
+                             'model mask after the history differs from the spec mask')
+            m = np.array(mo[2], dtype=np.int64).reshape(T, F, B, 9)
+            sel_names = st.get('flags', sel_names)
+            try:
+                kw = _select_kwargs(st)
+                d.select(**kw)
+                ix = np.ix_(d.dumps, d.channels, np.nonzero(d._corrprod_keep)[0])
+                raw = np.asarray(d.raw_flags[s1, s2])
+                flags = np.asarray(d.flags[s1, s2])
+                vis = np.asarray(d.vis[s1, s2])
+                wts = np.asarray(d.weights[s1, s2])
+            except Exception as ex:
+                ctx.disagree('stream=v4cal;what=raises;exc=%s' % type(ex).__name__, case, repr(ex)[:300], 'arrays',
+                             'select() / reading raw_flags, flags, vis, weights raised')
+                return
+            ms = m[ix][s1, s2]
+            has_pp = bool(mo[1] & 128)
+            has_dl = bool(mo[1] & 8)
+            tag = 'cal=%s;postproc_selected=%s;data_lost_selected=%s' % (
+                'yes' if cfg['applycal'] else 'no', 'yes' if has_pp else 'no', 'yes' if has_dl else 'no')
+            ftag = tag + ';flags_kw_in_step=%s' % ('yes' if 'flags' in st else 'no')
+            if raw.shape != ms.shape[:3] or raw.dtype != np.uint8 or flags.shape != raw.shape:
+                ctx.disagree('stream=v4cal;obs=shape', case, [raw.shape, str(raw.dtype), flags.shape], ms.shape[:3],
+                             'shape / dtype of raw_flags or flags differs from the selection')
+                return
+            fb = flags.view(np.uint8) != 0 if flags.dtype == bool else flags != 0
+            # property: implementation vs SPEC columns (7, 8); tie: implementation vs MODEL columns (0, 1)
+            for kind, c_raw, c_flag in (('property', 7, 8), ('tie', 0, 1)):
+                sfx = '' if kind == 'property' else ';vs=model'
+                exp_raw = ms[..., c_raw]
+                if not np.array_equal(raw, exp_raw):
+                    bad = tuple(np.argwhere(raw != exp_raw)[0])
+                    ctx.disagree('stream=v4cal;obs=raw_flags;bits=%s;%s%s' % (_bit_names(raw ^ exp_raw.astype(np.uint8)), tag, sfx),
+                                 dict(case, at=[int(b) for b in bad]), int(raw[bad]), int(ms[bad][0]),
+                                 'v4 raw_flags differ from stored | data_lost | postproc under the current flag selection %r'
+                                 % (sel_names,), spec=int(ms[bad][7]), kind=kind)
+                exp_flag = ms[..., c_flag] != 0
+                if flags.dtype != bool or not np.array_equal(fb, exp_flag):
+                    bad = tuple(np.argwhere(fb != exp_flag)[0]) if flags.dtype == bool else (0, 0, 0)
+                    ctx.disagree('stream=v4cal;obs=flags;%s%s' % (ftag, sfx), dict(case, at=[int(b) for b in bad]),
+                                 bool(fb[bad]), bool(ms[bad][1]),
+                                 'v4 boolean flags differ from (derived raw byte & mask of %r) != 0' % (sel_names,),
+                                 spec=bool(ms[bad][8]), kind=kind)
+                if np.array_equal(ms[..., 0], ms[..., 7]) and np.array_equal(ms[..., 1], ms[..., 8]):
+                    break    # model = spec on this case (always, unless a proof obligation is broken)
+            exp_vis = (ms[..., 2] + 1j * ms[..., 3]) * (2.0 ** ms[..., 4])
+            if not np.array_equal(vis, exp_vis.astype(np.complex64)):
+                bad = tuple(np.argwhere(vis != exp_vis.astype(np.complex64))[0])
+                ctx.disagree('stream=v4cal;obs=vis;%s' % tag, dict(case, at=[int(b) for b in bad]),
+                             str(vis[bad]), str(exp_vis[bad]),
+                             'visibilities changed with the flag / weight selection history (or are not the corrected ones)')
+            exp_w = ms[..., 5] * (2.0 ** ms[..., 6])
+            if not np.array_equal(wts, exp_w.astype(np.float32)):
+                bad = tuple(np.argwhere(wts != exp_w.astype(np.float32))[0])
+                ctx.disagree('stream=v4cal;obs=weights;%s' % tag, dict(case, at=[int(b) for b in bad]),
+                             float(wts[bad]), float(exp_w[bad]),
+                             'weights changed with the flag / weight selection history (or are not the corrected ones)')
+            sub = {k: np.asarray(e[k])[ix][s1, s2] for k in ('lostf', 'lostv', 'lostw', 'calok')}
+            any_lost = bool((sub['lostf'] | sub['lostv'] | sub['lostw']).any())
+            any_nan = bool((~sub['calok']).any())
+            ctx.traces_validated += 1
+            ctx.note_case(key + (i, repr(st)), nontrivial=any_lost or any_nan,
+                          sample=dict(stream='v4cal', applycal=cfg['applycal'], step=st, mask=mo[1], lost_in_selection=any_lost,
+                                      invalid_cal_in_selection=any_nan) if i == len(hist) - 1 else None)
+            ctx.count('v4cal_steps')
+            ctx.count('v4cal:flags_kw=%s' % ('flags' in st))
+            if any_nan:
+                ctx.count('v4cal:invalid_cal_visible;postproc_selected=%s' % has_pp)
+            if any_lost:
+                ctx.count('v4cal:lost_visible;data_lost_selected=%s' % has_dl)
+        ctx.count('v4cal:calmode=%s' % cfg['calmode'])
+        ctx.count('fmt=v4')
+    finally:
+        if x is not None:
+            v4.cleanup(x)
